@@ -17,6 +17,8 @@ def rnd_label(rng):
 
 def rnd_name(rng, pool):
     r = rng.random()
+    if r < 0.05:
+        return ''          # the root name (priming queries, root NS/SOA records, OPT): one zero octet on the wire
     if pool and r < 0.35:
         base = rng.choice(pool)
         labels = base.split('.')
@@ -46,7 +48,7 @@ def rnd_name(rng, pool):
 
 def enc_plain(name):
     out = b''
-    for l in name.split('.'):
+    for l in (name.split('.') if name else []):
         out += bytes([len(l)]) + l.encode()
     return out + b'\0'
 
@@ -60,7 +62,7 @@ class Enc:
         self.rng = rng
 
     def name(self, name):
-        labels = name.split('.')
+        labels = name.split('.') if name else []
         for i in range(len(labels)):
             suffix = '.'.join(labels[i:])
             if self.compress and suffix in self.table and self.rng.random() < 0.9:
